@@ -183,7 +183,15 @@ func renameFaults() int {
 				}
 			}
 			os.RemoveAll(final)
-			e.Halt()
+			if perr := func() (perr any) {
+				defer func() { perr = recover() }()
+				e.Halt()
+				return nil
+			}(); perr != nil {
+				// (a store whose seal went wrong without reporting it may not even stop)
+				fail(fmt.Sprintf("the store cannot be stopped after the failed seal: panic: %v", perr))
+				continue
+			}
 			if err := e.Reopen(); err != nil {
 				fail("the store does not come back after the failed seal: " + err.Error())
 				continue
